@@ -105,4 +105,46 @@ func timingOracles(c *Ctx) {
 		}
 		cancel()
 	}
+	// 4. "an aborted VM runs later scripts normally", for a session: a fragment evaluated under a context
+	// that is already done (or expires while it runs) returns the context's error, and the session then
+	// continues with everything the earlier fragments defined
+	for _, when := range []string{"before-start", "while-running"} {
+		ev := ugo.NewEval(ugo.CompilerOptions{}, nil)
+		c.dist["oracle:session-after-cancel"]++
+		if _, _, err := ev.Run(context.Background(), []byte("a := 41\nf := func(x) { return a + x }\ng := [1, 2]")); err != nil {
+			continue
+		}
+		ctx, cancel := context.WithCancel(context.Background())
+		src := "b := 7\nb += 1"
+		if when == "before-start" {
+			cancel()
+		} else {
+			src = "b := 7\nfor { b = 8 }"
+			go func() { time.Sleep(50 * time.Millisecond); cancel() }()
+		}
+		_, _, err := ev.Run(ctx, []byte(src))
+		cancel()
+		if err == nil {
+			c.Violation(PropViolation{"C09", "a fragment evaluated under a cancelled context (" + when + ") returned no error", src, "C09:session-cancel-no-error:" + when})
+			continue
+		}
+		var got string
+		func() {
+			defer func() {
+				if r := recover(); r != nil {
+					got = fmt.Sprintf("panic: %v", r)
+				}
+			}()
+			ret, _, err := ev.Run(context.Background(), []byte("g[0] = 5\nreturn [f(1), a, g]"))
+			if err != nil {
+				got = "error: " + semFirstLine(err.Error())
+				return
+			}
+			got = ret.String()
+		}()
+		if got != "[42, 41, [5, 2]]" {
+			c.Violation(PropViolation{"C09", fmt.Sprintf("after a fragment was cancelled (%s) the session does not continue normally: the next fragment gives %s, want [42, 41, [5, 2]]", when, got),
+				"a := 41; f := func(x) { return a + x }; g := [1, 2] | <cancelled fragment> | g[0] = 5; return [f(1), a, g]", "C09:session-lost-after-cancel:" + when})
+		}
+	}
 }
